@@ -32,6 +32,21 @@ checkarray[0] = listnan
 array_nan = checkarray[0]
 
 
+def _headermap(path, mode, fmt, shape, offset):
+    """
+    A header record as a memory map. A header that is not wholly in the file
+    (a truncated file) is an error: opened for update (mode r+), numpy would
+    extend the file on disk to hold the map.
+    """
+    import os
+    size = os.path.getsize(path)
+    if offset + fmt.itemsize * shape > size:
+        raise ValueError(
+            ('incomplete file: a header of %d bytes at byte %d, ' +
+             'the file has %d bytes') % (fmt.itemsize * shape, offset, size))
+    return memmap(path, mode=mode, dtype=fmt, shape=shape, offset=offset)
+
+
 class lateral_boundary(PseudoNetCDFFile):
     """
     lateral_boundary provides a PseudoNetCDF interface for CAMx
@@ -147,15 +162,13 @@ class lateral_boundary(PseudoNetCDFFile):
 
     def __readheader(self):
         offset = 0
-        self.__emiss_hdr = memmap(
-            self.__rffile, mode=self.__mode, dtype=self.__emiss_hdr_fmt,
-            shape=1, offset=offset)
+        self.__emiss_hdr = _headermap(
+            self.__rffile, self.__mode, self.__emiss_hdr_fmt, 1, offset)
         nspec = self.__emiss_hdr['nspec'][0]
         offset += self.__emiss_hdr.dtype.itemsize * self.__emiss_hdr.size
 
-        self.__grid_hdr = memmap(
-            self.__rffile, mode=self.__mode, dtype=self.__grid_hdr_fmt,
-            shape=1, offset=offset)
+        self.__grid_hdr = _headermap(
+            self.__rffile, self.__mode, self.__grid_hdr_fmt, 1, offset)
 
         self.XORIG = self.__grid_hdr['xorg'][0]
         self.YORIG = self.__grid_hdr['yorg'][0]
@@ -199,14 +212,12 @@ class lateral_boundary(PseudoNetCDFFile):
         nz = max(self.__grid_hdr['nz'], array([1]))[0]
 
         offset += self.__grid_hdr.dtype.itemsize * self.__grid_hdr.size
-        self.__cell_hdr = memmap(
-            self.__rffile, mode=self.__mode, dtype=self.__cell_hdr_fmt,
-            shape=1, offset=offset)
+        self.__cell_hdr = _headermap(
+            self.__rffile, self.__mode, self.__cell_hdr_fmt, 1, offset)
 
         offset += self.__cell_hdr.dtype.itemsize * self.__cell_hdr.size + 4
-        self.__spc_hdr = memmap(self.__rffile, mode=self.__mode,
-                                dtype=self.__spc_fmt, shape=nspec,
-                                offset=offset)
+        self.__spc_hdr = _headermap(
+            self.__rffile, self.__mode, self.__spc_fmt, nspec, offset)
 
         offset += self.__spc_hdr.dtype.itemsize * self.__spc_hdr.size + 4
         self._boundary_def = {}
@@ -216,9 +227,8 @@ class lateral_boundary(PseudoNetCDFFile):
                                             'edgedata', 'EPAD'],
                                      formats=['>i', '>i', '>i', '>i',
                                               '(%d,%d)>i' % (bdim, 4), '>i']))
-            self._boundary_def[bkey] = memmap(
-                self.__rffile, mode=self.__mode, dtype=__bound_fmt, shape=1,
-                offset=offset)
+            self._boundary_def[bkey] = _headermap(
+                self.__rffile, self.__mode, __bound_fmt, 1, offset)
             assert (self._boundary_def[bkey]['SPAD'] ==
                    (__bound_fmt.itemsize - 8))
             offset += __bound_fmt.itemsize
